@@ -1329,7 +1329,13 @@ func (r *run) build(b *bodySpec) ([]byte, string, string, bool) {
 		return refserver.BadServerSalt(id, 1, 48, b.salt), fmt.Sprintf("badsalt %s %d", r.norm(id), b.salt), "bad_server_salt", false
 	case "badmsg":
 		id, _, _ := r.resolve(b.ref)
-		return refserver.BadMsgNotification(id, 1, 32), "badmsg " + r.norm(id), "bad_msg_notification", true
+		// error_code and bad_msg_seqno are signed 32-bit fields the server fills in: the documented codes, codes nobody
+		// documented, zero, negative ones, the corners of int32; chosen by the id and the number of messages sent so far
+		codes := []int32{32, 16, 17, 18, 19, 20, 33, 34, 35, 48, 64, 0, -1, 1, 65, 255, 256, 272, 2147483647, -2147483648, -404}
+		seqs := []int32{1, 0, 2, 3, -1, 2147483647, -2147483648}
+		h := int(uint64(id)>>2) + len(r.sent)
+		code := codes[h%len(codes)]
+		return refserver.BadMsgNotification(id, seqs[(h/len(codes))%len(seqs)], code), "badmsg " + r.norm(id), "bad_msg_notification:" + strconv.Itoa(int(code)), true
 	case "garbage":
 		body, class := garbageBody(b.n)
 		return body, "garbage", class, true
